@@ -913,7 +913,16 @@ func Now() time.Time {
 	return time.Unix(Cur.now(), 0)
 }
 func Since(t time.Time) time.Duration { return Now().Sub(t) }
-func Until(t time.Time) time.Duration { return t.Sub(Now()) }
+func Until(t time.Time) time.Duration {
+	if UntilOverride != nil {
+		return UntilOverride(t)
+	}
+	return t.Sub(Now())
+}
+
+// UntilOverride, when set by a harness, replaces the clock difference of
+// time.Until by an arbitrary (symbolic) duration.
+var UntilOverride func(time.Time) time.Duration
 
 // ---- SHA-256 ----
 
